@@ -2,10 +2,11 @@
 (* C08 - observations of the real tagger (one serial pass vs. a set of jobs) judged by the P-level      *)
 (* definitions of Ownership.tla, re-stated over raw observations:                                       *)
 (*   {"ev":"run","tid","mode","method","contigs":[len,..],                                               *)
-(*    "serial":[{"q","m","f","c","p","e","t","g","s","sc"}],   one per record of the serial output;       *)
-(*                        q name, m mate, f flag, c contig id, p start, e end, t tags (mi, ix removed),   *)
-(*                        g ordinal of the serial molecule, s / sc its cut site (-1: none)                *)
-(*    "jobs":[{"tasks":[{"c","s","e","fs","fe"}],"recs":[{"q","m","f","c","p","t","ix"}]}],              *)
+(*    "serial":[{"s","sc","recs":[{"q","m","f","c","p","e","t"}]}],   one entry per molecule the serial    *)
+(*                        pass yielded: s / sc its cut site and contig id (-1: none); per record: q name,  *)
+(*                        m mate, f flag, c contig id, p start, e end, t all tags except mi / ix           *)
+(*    "plan":[[{"c","s","e","fs","fe"}]]   the planned jobs (wrapper around generate_tasks)                *)
+(*    "jobs":[{"tasks":[{"c","s","e","fs","fe"}],"recs":[{"q","m","f","c","p","t","ix"}]}],  returned jobs  *)
 (*                        task: c = -1 the '*' job; s = -1 whole contig (contig-per-process)              *)
 (*    "merged":[{"q","m","f","c","p","t"}]  the merged output (empty: the union of the jobs is the output) *)
 (*    "raised": exception type of the parallel run or "",  "pred"/"wrote": scenario replays only}        *)
@@ -18,9 +19,10 @@ VARIABLE l
 Rng(q) == { q[i] : i \in DOMAIN q }
 Key(r) == <<r.q, r.m>>
 Proj(r) == <<r.q, r.m, r.f, r.c, r.p, r.t>>
+KeyOfProj(x) == <<x[1], x[2]>>
 
 (* ---- tasks ---- *)
-AllTasks(e) == UNION { Rng(e.jobs[j].tasks) : j \in DOMAIN e.jobs }
+AllTasks(e) == UNION { Rng(e.plan[j]) : j \in DOMAIN e.plan }      \* the job list handed to the workers
 RegionTasks(e) == { t \in AllTasks(e) : t.c >= 0 /\ t.s >= 0 }
 CLen(e, c) == e.contigs[c + 1]
 Owns(t, c, s) == t.c = c /\ (t.s = -1 \/ (t.s <= s /\ s < t.e))
@@ -36,85 +38,80 @@ TilingOK(e) ==
         /\ \A x, y \in T : (x.s < y.e /\ y.s < x.e) => x = y
         /\ Cardinality(T) = Cardinality({ <<t.s, t.e>> : t \in T })
 
-(* ---- serial molecules / fragments ---- *)
-Mols(e) == { r.g : r \in Rng(e.serial) }
-MolRecs(e, g) == { r \in Rng(e.serial) : r.g = g }
-Placed(e, g) == \E r \in MolRecs(e, g) : r.c >= 0
-Sited(e, g) == \A r \in MolRecs(e, g) : r.s >= 0 /\ r.sc >= 0
-SiteOf(e, g) == (CHOOSE r \in MolRecs(e, g) : TRUE).s
-SiteContig(e, g) == (CHOOSE r \in MolRecs(e, g) : TRUE).sc
-(* placed molecules without any site location: the code's `continue` arm; outside "the bin that contains its cut site" *)
+(* a fetch window that starts before the contig is not a region of the genome (pysam refuses it); tilers producing it are C17 *)
+WindowsOK(e) == \A t \in RegionTasks(e) : t.fs >= 0
+
+(* ---- serial molecules ---- *)
+Mols(e) == DOMAIN e.serial
+MRecs(e, g) == Rng(e.serial[g].recs)
+MKeys(e, g) == { Key(r) : r \in MRecs(e, g) }
+Placed(e, g) == \E r \in MRecs(e, g) : r.c >= 0
+Sited(e, g) == e.serial[g].s >= 0 /\ e.serial[g].sc >= 0
+(* placed molecules without any site location (the code's `continue` arm): no bin "contains its cut site" *)
 NoSiteMols(e) == { g \in Mols(e) : Placed(e, g) /\ ~Sited(e, g) }
-NoSiteKeys(e) == { Key(r) : r \in { x \in Rng(e.serial) : x.g \in NoSiteMols(e) } }
+(* sited molecules of a tiled contig whose site lies in no bin at all (outside [0, len)) *)
+OutsideMols(e) == { g \in Mols(e) : /\ Sited(e, g) /\ \E t \in RegionTasks(e) : t.c = e.serial[g].sc
+                                    /\ Owners(e, e.serial[g].sc, e.serial[g].s) = {} }
+SkipKeys(e) == UNION { MKeys(e, g) : g \in NoSiteMols(e) \cup OutsideMols(e) }
 
-(* sited molecules of a tiled contig whose site lies in no bin at all (outside [0, len)): no job can be "the one whose bin *)
-(* contains its cut site"; observation only *)
-OutsideMols(e) == { g \in Mols(e) : /\ Sited(e, g) /\ \E t \in RegionTasks(e) : t.c = SiteContig(e, g)
-                                    /\ Owners(e, SiteContig(e, g), SiteOf(e, g)) = {} }
-SkipKeys(e) == NoSiteKeys(e) \cup { Key(r) : r \in { x \in Rng(e.serial) : x.g \in OutsideMols(e) } }
-
-(* extent of a fragment = cells covered by its reads and its cut site; "one fragment length" of the statement *)
-FragExt(e, q) ==
-    LET R == { r \in Rng(e.serial) : r.q = q /\ r.c >= 0 }
-        lo == MinOf({ r.p : r \in R } \cup { r.s : r \in { x \in R : x.s >= 0 /\ x.sc = x.c } })
-        hi == MaxOf({ r.e : r \in R } \cup { r.s + 1 : r \in { x \in R : x.s >= 0 /\ x.sc = x.c } })
-    IN hi - lo
-MaxExt(e, c) ==
-    LET Q == { r.q : r \in { x \in Rng(e.serial) : x.c = c } } IN
-    IF Q = {} THEN 0 ELSE MaxOf({ FragExt(e, q) : q \in Q })
+(* extent of a fragment = cells covered by its reads and its cut site: "one fragment length" of the statement *)
+FragExt(e, g, q) ==
+    LET R == { r \in MRecs(e, g) : r.q = q /\ r.c >= 0 }
+        st == IF Sited(e, g) /\ \A r \in R : r.c = e.serial[g].sc THEN { e.serial[g].s } ELSE {}
+    IN MaxOf({ r.e : r \in R } \cup { x + 1 : x \in st }) - MinOf({ r.p : r \in R } \cup st)
+MolExt(e, g) == LET Q == { r.q : r \in { x \in MRecs(e, g) : x.c >= 0 } } IN
+                IF Q = {} THEN 0 ELSE MaxOf({ FragExt(e, g, q) : q \in Q })
+MolContig(e, g) == LET R == { r \in MRecs(e, g) : r.c >= 0 } IN IF R = {} THEN -1 ELSE (CHOOSE r \in R : TRUE).c
+MaxExt(e, c) == MaxOf({0} \cup { MolExt(e, g) : g \in { x \in Mols(e) : MolContig(e, x) = c } })
 MarginOK(e) ==
     LET mx == [c \in 0 .. (Len(e.contigs) - 1) |-> MaxExt(e, c)] IN
     \A t \in RegionTasks(e) :
         /\ t.fs <= t.s /\ t.e <= t.fe
         /\ (t.s - t.fs >= mx[t.c] \/ t.fs <= 0)
         /\ (t.fe - t.e >= mx[t.c] \/ t.fe >= CLen(e, t.c))
+InScope(e) == TilingOK(e) /\ WindowsOK(e) /\ MarginOK(e)
 
 (* ---- what was written ---- *)
-JobRecs(e, j) == Rng(e.jobs[j].recs)
-Writers(e, K) == { j \in DOMAIN e.jobs : \E r \in JobRecs(e, j) : Key(r) \in K }
+JobKeys(e) == [j \in DOMAIN e.jobs |-> { Key(r) : r \in Rng(e.jobs[j].recs) }]
 Output(e) == IF Len(e.merged) > 0 THEN [i \in DOMAIN e.merged |-> Proj(e.merged[i])]
              ELSE FlattenSeq([j \in DOMAIN e.jobs |-> [i \in DOMAIN e.jobs[j].recs |-> Proj(e.jobs[j].recs[i])]])
-KeyOfProj(x) == <<x[1], x[2]>>
 
-(* sited serial molecules: owner jobs (by cut site) and writer jobs (by records) *)
-SitedMols(e) == { g \in Mols(e) : Sited(e, g) }
-OwnTab(e) == [g \in SitedMols(e) |-> Owners(e, SiteContig(e, g), SiteOf(e, g))]
-WriTab(e) == [g \in SitedMols(e) |-> Writers(e, { Key(r) : r \in MolRecs(e, g) })]
-
+(* Inv_C08_OneOwner: every sited serial molecule is written by exactly the job whose bin contains its site *)
 OwnerVerdict(e) ==
-    LET O == OwnTab(e)
-        W == WriTab(e)
-        G == { g \in SitedMols(e) : Cardinality(O[g]) = 1 }
-    IN IF \E g \in G : W[g] = {} THEN "Inv_C08_OneOwner_unwritten"
+    LET JK == JobKeys(e)
+        S == { g \in Mols(e) : Sited(e, g) }
+        O == [g \in S |-> Owners(e, e.serial[g].sc, e.serial[g].s)]
+        W == [g \in S |-> { j \in DOMAIN e.jobs : JK[j] \cap MKeys(e, g) # {} }]
+        G == { g \in S : Cardinality(O[g]) = 1 }
+    IN IF \A g \in G : W[g] = O[g] THEN "ok"
+       ELSE IF \E g \in G : W[g] = {} THEN "Inv_C08_OneOwner_unwritten"
        ELSE IF \E g \in G : ~(W[g] \subseteq O[g]) /\ O[g] \subseteq W[g] THEN "Inv_C08_OneOwner_also_foreign_job"
-       ELSE IF \E g \in G : W[g] # O[g] THEN "Inv_C08_OneOwner_wrong_job"
-       ELSE "ok"
+       ELSE "Inv_C08_OneOwner_wrong_job"
 
+(* Inv_C08_Complete: the owner wrote every record of the molecule once, as one molecule (one ix) *)
 CompleteVerdict(e) ==
-    LET O == OwnTab(e)
-        G == { g \in SitedMols(e) : Cardinality(O[g]) = 1 }
-        Own == [g \in G |-> CHOOSE j \in O[g] : TRUE]
-        Mine == [g \in G |-> { i \in DOMAIN e.jobs[Own[g]].recs :
-                                 Key(e.jobs[Own[g]].recs[i]) \in { Key(r) : r \in MolRecs(e, g) } }]
-    IN IF \E g \in G : \E r \in MolRecs(e, g) :
-              Cardinality({ i \in Mine[g] : Key(e.jobs[Own[g]].recs[i]) = Key(r) }) # 1 THEN "Inv_C08_Complete_records"
+    LET S == { g \in Mols(e) : Sited(e, g) }
+        G == { g \in S : Cardinality(Owners(e, e.serial[g].sc, e.serial[g].s)) = 1 }
+        Own == [g \in G |-> CHOOSE j \in Owners(e, e.serial[g].sc, e.serial[g].s) : TRUE]
+        Mine == [g \in G |-> { i \in DOMAIN e.jobs[Own[g]].recs : Key(e.jobs[Own[g]].recs[i]) \in MKeys(e, g) }]
+    IN IF \E g \in G : \/ Cardinality(Mine[g]) # Cardinality(MKeys(e, g))
+                       \/ { Key(e.jobs[Own[g]].recs[i]) : i \in Mine[g] } # MKeys(e, g) THEN "Inv_C08_Complete_records"
        ELSE IF \E g \in G : Cardinality({ e.jobs[Own[g]].recs[i].ix : i \in Mine[g] }) > 1 THEN "Inv_C08_Complete_split"
        ELSE "ok"
 
+(* Inv_C08_Equal: the output is, as a bag of (name, mate, flag, contig, pos, tags \ {mi, ix}), the serial output *)
 EqualVerdict(e) ==
     LET skip == SkipKeys(e)
-        want == { Proj(r) : r \in { x \in Rng(e.serial) : Key(x) \notin skip } }
+        want == { Proj(r) : r \in { x \in UNION { MRecs(e, g) : g \in Mols(e) } : Key(x) \notin skip } }
         out == Output(e)
         got == { i \in DOMAIN out : KeyOfProj(out[i]) \notin skip }
-        N(w) == Cardinality({ i \in got : out[i] = w })
+        gotset == { out[i] : i \in got }
         NK(k) == Cardinality({ i \in got : KeyOfProj(out[i]) = k })
-    IN IF \E w \in want : NK(KeyOfProj(w)) = 0 THEN "Inv_C08_Equal_missing"
+    IN IF Cardinality(gotset) = Cardinality(got) /\ gotset = want THEN "ok"
+       ELSE IF \E w \in want : NK(KeyOfProj(w)) = 0 THEN "Inv_C08_Equal_missing"
        ELSE IF \E w \in want : NK(KeyOfProj(w)) > 1 THEN "Inv_C08_Equal_duplicated"
-       ELSE IF \E w \in want : N(w) # 1 THEN "Inv_C08_Equal_changed"
-       ELSE IF \E i \in got : out[i] \notin want THEN "Inv_C08_Equal_extra"
-       ELSE "ok"
-
-InScope(e) == TilingOK(e) /\ MarginOK(e)
+       ELSE IF \E w \in want : w \notin gotset THEN "Inv_C08_Equal_changed"
+       ELSE "Inv_C08_Equal_extra"
 
 Judged(e) ==
     LET ov == OwnerVerdict(e) IN
@@ -130,9 +127,10 @@ Verdict(e) ==
 
 (* informational observations *)
 Notes(i, e, v) ==
-    LET tok == TilingOK(e)
+    LET tok == TilingOK(e) /\ WindowsOK(e)
         mok == tok /\ MarginOK(e) IN
-    /\ IF ~tok THEN Note(i, e.tid, "precondition_not_met_tiling") ELSE TRUE
+    /\ IF ~TilingOK(e) THEN Note(i, e.tid, "precondition_not_met_tiling") ELSE TRUE
+    /\ IF TilingOK(e) /\ ~WindowsOK(e) THEN Note(i, e.tid, "precondition_not_met_window_outside_contig") ELSE TRUE
     /\ IF tok /\ ~mok THEN Note(i, e.tid, "precondition_not_met_margin") ELSE TRUE
     /\ IF ~mok /\ e.raised = "" /\ Judged(e) # "ok" THEN Note(i, e.tid, "differs_outside_precondition") ELSE TRUE
     /\ IF NoSiteMols(e) # {} THEN Note(i, e.tid, "no_site_molecule") ELSE TRUE
